@@ -242,7 +242,9 @@ def _shortest_hyp_paths(
                         depths[ss] = depth
 
     shortest: dict[tuple[Synset, int], list[Synset]] = {}
-    for ss in common:
+    # iterate in a fixed order so that ties between equally short paths
+    # or equally deep hypernyms do not depend on set iteration order
+    for ss in sorted(common):
         from_self_subpaths, from_other_subpaths = subpaths[ss]
         shortest_from_self = min(from_self_subpaths, key=len)
         # for the other path, we need to reverse it and remove the pivot synset
